@@ -646,9 +646,11 @@ func createConnHandler(
 			ctx := stream.Context()
 
 			args := dynamicpb.NewMessage(argsDesc)
-			if err := stream.RecvMsg(args); err != nil {
-				return err
+			first := stream.RecvMsg(args)
+			if first != nil && (first != io.EOF || !sd.ClientStreams) {
+				return first
 			}
+			// first == io.EOF: the client's stream ended without any message.
 
 			if md, ok := metadata.FromIncomingContext(ctx); ok {
 				ctx = metadata.NewOutgoingContext(ctx, md)
@@ -663,7 +665,11 @@ func createConnHandler(
 			if err != nil {
 				return err
 			}
-			if err := clientStream.SendMsg(args); err != nil && err != io.EOF {
+			if first == io.EOF {
+				if err := clientStream.CloseSend(); err != nil {
+					return err
+				}
+			} else if err := clientStream.SendMsg(args); err != nil && err != io.EOF {
 				return err // io.EOF: the stream is done, RecvMsg returns its status
 			}
 
@@ -674,7 +680,7 @@ func createConnHandler(
 				}
 			}
 
-			if sd.ClientStreams {
+			if sd.ClientStreams && first == nil {
 				go func() {
 					for {
 						args := dynamicpb.NewMessage(argsDesc)
